@@ -35,13 +35,27 @@ func run(cfg lib.Cfg) error {
 	// lib.NewRNG(seed) streams of neighbouring seeds are shifts of one another (they
 	// re-synchronise after a few cases); Fork() starts from a hashed state instead
 	r := lib.NewRNG(cfg.Seed).Fork()
-	n := 300
+	n := 250
 	if cfg.Thorough() {
 		n = 4000
 	}
 	opts := rows.GenOpts{}
 	for i := 0; i < n; i++ {
 		c := rows.GenCase(r, opts, i)
+		c.Abi = true
+		for _, k := range rows.RunCase(c) {
+			out.Add(k)
+		}
+	}
+	// selected array + a per-element filter on it + abi_idx: the element index survives rejections
+	nf := 30
+	if cfg.Thorough() {
+		nf = 500
+	}
+	fopts := rows.GenOpts{Filters: true, RowMixP: 100, ForceMode: "log"}
+	for i := 0; i < nf; i++ {
+		c := rows.GenCase(r, fopts, 50000+i)
+		rows.EnsureAbiIdx(c)
 		c.Abi = true
 		for _, k := range rows.RunCase(c) {
 			out.Add(k)
